@@ -218,3 +218,15 @@ Definition order_pairs_ranked : bool :=
 Definition deadlock_pairs : list (string * string) :=
   filter (fun p => String.eqb (fst p) (snd p) ||
                    existsb (fun q => String.eqb (fst p) (snd q) && String.eqb (snd p) (fst q)) order_pairs) order_pairs.
+
+(* ---- C09 / C13: the wake-up of the send loop ---- *)
+(* the channels the send loop waits on and that another goroutine signals with a non-blocking send *)
+Definition send_loop_waits_on (ch : string) : bool :=
+  existsb (fun row => String.eqb (fst (fst row)) "GoBackNConn.sendPacketsForever" && mem ("g." ++ ch) (snd row))
+          select_table.
+
+Definition window_wakeups : list (string * string * string) :=
+  filter (fun r => send_loop_waits_on (snd (fst r))) signal_table.
+
+Definition unbuffered_wakeups : list (string * string * string) :=
+  filter (fun r => String.eqb (snd r) "0" || String.eqb (snd r) "?") window_wakeups.
